@@ -51,12 +51,13 @@ func (e *fnEnc) freshResults(v ssa.Value, sig *types.Signature, hint string) []s
 }
 
 func (e *fnEnc) call(v ssa.Value, c *ssa.CallCommon, instr ssa.Instruction) {
+	e.siteAsserts(v, c, instr, true)
 	e.call0(v, c, instr)
-	e.siteAsserts(v, c, instr)
+	e.siteAsserts(v, c, instr, false)
 }
 
 // siteAsserts checks `at call NAME#k assert` clauses right after the matching call.
-func (e *fnEnc) siteAsserts(v ssa.Value, c *ssa.CallCommon, instr ssa.Instruction) {
+func (e *fnEnc) siteAsserts(v ssa.Value, c *ssa.CallCommon, instr ssa.Instruction, before bool) {
 	if !e.top || e.contract == nil || len(e.contract.AtCalls) == 0 {
 		return
 	}
@@ -81,9 +82,11 @@ func (e *fnEnc) siteAsserts(v ssa.Value, c *ssa.CallCommon, instr ssa.Instructio
 		}
 		seen[n] = true
 		site := fmt.Sprintf("%s#%d", n, e.callOrd[n])
-		e.callOrd[n]++
+		if !before {
+			e.callOrd[n]++
+		}
 		for _, cl := range e.contract.AtCalls {
-			if cl.Site != site {
+			if cl.Site != site || (cl.Kind == "assert-before") != before {
 				continue
 			}
 			idx := -1
